@@ -17,7 +17,7 @@ use std::time::{Duration, Instant};
 pub fn def() -> PropDef {
     PropDef {
         id: "C16",
-        rule: "generated thread programs, each executed in a FRESH child process (so that every program races the lazy initialisation of the global tables): 2..12 threads released by a common barrier with generated start skews; per thread a list of actions: construct an engine (Naive / NoSimd / Ssse3 / Avx2 / Default - each first-touches a different subset of the exp-log, skew, Mul16, Mul128 and LogWalsh tables) or run an encode or decode round (1..12 repetitions) on own objects, drawn from a per-program palette of 1..3 kinds of work so that threads do the same and different work side by side, optionally handing the object over a channel to another thread after j of its adds. oracle: every round's output digest equals the digest of the same round executed sequentially in the parent; the child must exit 0 (a panic anywhere, including lazy-initialisation poisoning, fails it). Two programs run 48 threads at once. Four programs make 4 threads call one-shot encode / decode with shard iterators that wait for each other inside the call. A child exceeding the watchdog (suspected deadlock) is reported as inconclusive (exit 2), never as a violation. non-trivial: >=2 threads whose first actions touch different tables, or a hand-over in the middle of a round; distinct by full program",
+        rule: "generated thread programs, each executed in a FRESH child process (so that every program races the lazy initialisation of the global tables): 2..12 threads released by a common barrier with generated start skews; per thread a list of actions: construct an engine (Naive / NoSimd / Ssse3 / Avx2 / Default - each first-touches a different subset of the exp-log, skew, Mul16, Mul128 and LogWalsh tables) or run an encode or decode round (1..12 repetitions) on own objects, drawn from a per-program palette of 1..3 kinds of work so that threads do the same and different work side by side, optionally handing the object over a channel to another thread after j of its adds. oracle: every round's output digest equals the digest of the same round executed sequentially in the parent; the child must exit 0 (a panic anywhere, including lazy-initialisation poisoning, fails it). Two programs run 48 threads at once. Rounds may also be completed while their thread exits (object kept in a thread-local of the harness, encode()/decode() inside its destructor; holder registered before or after the thread's other codec calls): one action in ten of the generated programs and four hammer programs. Four programs make 4 threads call one-shot encode / decode with shard iterators that wait for each other inside the call. A child exceeding the watchdog (suspected deadlock) is reported as inconclusive (exit 2), never as a violation. non-trivial: >=2 threads whose first actions touch different tables, or a hand-over in the middle of a round; distinct by full program",
         assumptions: &[
             "stress exploration: the OS scheduler picks the interleavings, the harness only provokes collisions (barrier, skews, fresh process per program); this cannot enumerate schedules",
         ],
@@ -33,6 +33,48 @@ pub enum Action {
     /// one-shot encode()/decode() whose shard iterator waits, at its first item, until every other thread of
     /// the program is inside its own one-shot call too (calls that can only make progress side by side)
     OneShotRendezvous { id: u32, dec: bool, cfg: Cfg, seed: u64, wait_at: u8 },
+    /// a round that is completed WHILE ITS THREAD EXITS: the object is built and given its shards by the thread,
+    /// kept in a thread-local of the harness, and encode()/decode() runs in that thread-local's destructor
+    /// (a worker that flushes pending work when it is torn down). `early`: the holder is registered before the
+    /// thread's first codec call (so it is destroyed after anything the crate may have registered) or after the
+    /// thread's other actions
+    RoundAtExit { id: u32, dec: bool, kind: Kind, eng: Eng, cfg: Cfg, seed: u64, early: bool },
+}
+
+struct AtExit {
+    pending: Option<Pending>,
+    tx: mpsc::Sender<Result<(u32, u64), String>>,
+}
+
+impl Drop for AtExit {
+    fn drop(&mut self) {
+        if let Some(p) = self.pending.take() {
+            let _ = self.tx.send(finish(p));
+        }
+    }
+}
+
+thread_local! {
+    static AT_EXIT: std::cell::RefCell<Vec<AtExit>> = const { std::cell::RefCell::new(Vec::new()) };
+}
+
+/// builds the object, makes all adds now and leaves the final encode()/decode() to the thread-local destructor
+fn park_at_exit(a: &Action, tx: &mpsc::Sender<Result<(u32, u64), String>>) -> Result<(), String> {
+    let Action::RoundAtExit { id, dec, kind, eng, cfg, seed, .. } = a else { return Ok(()) };
+    // first access registers the destructor of the holder
+    AT_EXIT.with(|v| v.borrow_mut().reserve(1));
+    let mut obj = Obj::make(*dec, *kind, *eng, *cfg).map_err(|e| format!("round {id}: construction failed: {e:?}"))?;
+    let mut calls = round_calls(*dec, *cfg, *seed);
+    let fin = calls.split_off(calls.len() - 1);
+    for call in &calls {
+        let out = obj.apply(call)?;
+        if !out.is_ok() {
+            return Err(format!("round {id}: add failed: {}", out.brief()));
+        }
+    }
+    let pending = Pending { id: *id, obj, calls: fin, all_calls: std::sync::Arc::new(Vec::new()), again: None };
+    AT_EXIT.with(|v| v.borrow_mut().push(AtExit { pending: Some(pending), tx: tx.clone() }));
+    Ok(())
 }
 
 #[derive(Clone, Debug, PartialEq, Eq, Hash, Serialize, Deserialize)]
@@ -62,6 +104,8 @@ fn strategy(_t: Tier) -> BoxedStrategy<Program> {
     let action = prop_oneof![
         2 => gen::engine().prop_map(|e| (None, e, 1u8, None)),
         6 => (any::<u8>(), prop_oneof![3 => Just(1u8), 2 => 2u8..=12], prop::option::weighted(0.3, (any::<u8>(), any::<u16>()))).prop_map(|(pi, rep, h)| (Some(pi), Eng::Naive, rep, h)),
+        // repeat 0 encodes "complete this round while the thread exits" (hand-over field reused: Some = early holder)
+        1 => (any::<u8>(), any::<bool>()).prop_map(|(pi, early)| (Some(pi), Eng::Naive, 0u8, if early { Some((0u8, 0u16)) } else { None })),
     ];
     (prop::collection::vec(spec(), 1..=3), prop::collection::vec((0u32..2000, prop::collection::vec(action, 1..=4)), 2..=12))
         .prop_map(|(palette, ts)| {
@@ -76,7 +120,11 @@ fn strategy(_t: Tier) -> BoxedStrategy<Program> {
                             Some(pi) => {
                                 let (dec, kind, eng, cfg, seed) = palette[pi as usize % palette.len()];
                                 id += 1;
-                                Action::Round { id: id - 1, dec, kind, eng, cfg, seed, repeat, handover }
+                                if repeat == 0 {
+                                    Action::RoundAtExit { id: id - 1, dec, kind, eng, cfg, seed, early: handover.is_some() }
+                                } else {
+                                    Action::Round { id: id - 1, dec, kind, eng, cfg, seed, repeat, handover }
+                                }
                             }
                         })
                         .collect();
@@ -323,6 +371,23 @@ impl PartDyn for Hammer {
                     .collect();
                 jobs.push(Program { threads });
             }
+            // rounds completed while their thread exits (holder registered before / after the thread's other codec use)
+            for (kind, dec) in [(Kind::Rs, true), (Kind::High, true), (Kind::Low, true), (Kind::Default, false)] {
+                let mut rng = gen::Xs::new(run.seed ^ v ^ 0xe817);
+                let threads = (0..6u32)
+                    .map(|t| {
+                        let (a, b) = (2 + rng.below(5), 7 + rng.below(6));
+                        let cfg = if kind == Kind::High { Cfg { k: b, r: a, b: 64 } } else { Cfg { k: a, r: b, b: 64 } };
+                        let seed = rng.next();
+                        let mut actions = vec![Action::RoundAtExit { id: 2 * t, dec, kind, eng: Eng::Default, cfg, seed, early: t % 2 == 0 }];
+                        if t % 3 != 2 {
+                            actions.insert((t % 2) as usize, Action::Round { id: 2 * t + 1, dec, kind, eng: Eng::Default, cfg, seed: seed ^ 1, repeat: 3, handover: None });
+                        }
+                        ThreadProg { spin: 0, actions }
+                    })
+                    .collect();
+                jobs.push(Program { threads });
+            }
             // one-shot calls that can only finish side by side (a process-wide lock held while the
             // caller's iterator runs would deadlock them: reported by the watchdog as inconclusive)
             for (dec, mode) in [(false, 0u8), (false, 1), (true, 0), (true, 1)] {
@@ -506,6 +571,12 @@ fn oneshot(dec: bool, cfg: Cfg, seed: u64, wait_at: u8, barrier: Option<&std::sy
 fn start(action: &Action) -> Result<Option<(Pending, Option<(u8, u16)>)>, String> {
     match action {
         Action::OneShotRendezvous { .. } => Ok(None),
+        Action::RoundAtExit { id, dec, kind, eng, cfg, seed, .. } => {
+            // (sequential reference only; the concurrent execution parks these in a thread-local)
+            let obj = Obj::make(*dec, *kind, *eng, *cfg).map_err(|e| format!("round {id}: construction failed: {e:?}"))?;
+            let calls = round_calls(*dec, *cfg, *seed);
+            Ok(Some((Pending { id: *id, obj, calls, all_calls: std::sync::Arc::new(Vec::new()), again: None }, None)))
+        }
         Action::Construct(e) => {
             crate::with_engine!(*e, E, {
                 let _ = <E as Mk>::mk();
@@ -553,6 +624,7 @@ pub fn run_concurrent(p: &Program) -> Result<BTreeMap<u32, u64>, String> {
         txs.push(tx);
         rxs.push(Some(rx));
     }
+    let (exit_tx, exit_rx) = mpsc::channel::<Result<(u32, u64), String>>();
     let results: Vec<Result<Vec<(u32, u64)>, String>> = std::thread::scope(|sc| {
         let mut hs = Vec::new();
         for (ti, t) in p.threads.iter().enumerate() {
@@ -560,9 +632,13 @@ pub fn run_concurrent(p: &Program) -> Result<BTreeMap<u32, u64>, String> {
             let txs: Vec<mpsc::Sender<Pending>> = txs.clone();
             let barrier = &barrier;
             let rv_barrier = &rv_barrier;
+            let exit_tx = exit_tx.clone();
             hs.push(sc.spawn(move || -> Result<Vec<(u32, u64)>, String> {
                 let mut done = Vec::new();
                 barrier.wait();
+                for a in t.actions.iter().filter(|a| matches!(a, Action::RoundAtExit { early: true, .. })) {
+                    park_at_exit(a, &exit_tx)?;
+                }
                 let mut x = 0u64;
                 for i in 0..t.spin {
                     x = x.wrapping_add(std::hint::black_box(i as u64));
@@ -575,6 +651,9 @@ pub fn run_concurrent(p: &Program) -> Result<BTreeMap<u32, u64>, String> {
                         // only the first such action of a thread takes part in the rendezvous
                         done.push((*id, oneshot(*dec, *cfg, *seed, *wait_at, if met { None } else { Some(rv_barrier) })?));
                         met = true;
+                        continue;
+                    }
+                    if matches!(a, Action::RoundAtExit { .. }) {
                         continue;
                     }
                     if let Some((mut pending, handover)) = start(a)? {
@@ -602,6 +681,9 @@ pub fn run_concurrent(p: &Program) -> Result<BTreeMap<u32, u64>, String> {
                 for pending in rx {
                     done.push(finish(pending)?);
                 }
+                for a in t.actions.iter().filter(|a| matches!(a, Action::RoundAtExit { early: false, .. })) {
+                    park_at_exit(a, &exit_tx)?;
+                }
                 Ok(done)
             }));
         }
@@ -613,6 +695,13 @@ pub fn run_concurrent(p: &Program) -> Result<BTreeMap<u32, u64>, String> {
         for (id, d) in r? {
             out.insert(id, d);
         }
+    }
+    // rounds completed by thread-local destructors (the scope may return before these have run:
+    // the channel closes when the last of them is done)
+    drop(exit_tx);
+    for r in exit_rx {
+        let (id, d) = r.map_err(|e| format!("in a round completed while its thread exits: {e}"))?;
+        out.insert(id, d);
     }
     Ok(out)
 }
@@ -711,7 +800,7 @@ fn first_tables(a: &Action) -> u8 {
     };
     match a {
         Action::Construct(e) => eng_bits(*e),
-        Action::Round { dec, eng, .. } => eng_bits(*eng) | if *dec { 16 } else { 0 },
+        Action::Round { dec, eng, .. } | Action::RoundAtExit { dec, eng, .. } => eng_bits(*eng) | if *dec { 16 } else { 0 },
         Action::OneShotRendezvous { dec, .. } => eng_bits(Eng::Default) | if *dec { 16 } else { 0 },
     }
 }
@@ -746,6 +835,7 @@ fn check(p: &Program, st: &mut Stats) -> CheckResult {
     st.classf("threads", p.threads.len());
     st.classf("distinct_first_touch_sets", firsts.len());
     st.classf("handovers", handovers.min(4));
+    st.classf("rounds_completed_during_thread_exit", p.threads.iter().flat_map(|t| &t.actions).filter(|a| matches!(a, Action::RoundAtExit { .. })).count().min(4));
     if firsts.len() >= 2 || handovers > 0 {
         st.nontrivial_case("programs", p);
     }
